@@ -309,7 +309,14 @@ Fixpoint filter_seen (seen : list N) (l : list (N * N)) : list (N * N) * list N 
       else let '(keep, seen') := filter_seen (seen ++ [sid]) r in ((sid, u) :: keep, seen')
   end.
 
-Definition is_chat_refresh (m : smsg) : bool := false.   (* not generated by the driver's alphabet *)
+(* a "message" whose data is {"type":"chat","chat":{"refresh":true}}: the driver sends it as the message with this tag *)
+Definition CHAT_REFRESH_TAG := 77.
+Definition is_chat_refresh (m : smsg) : bool :=
+  match m with SMsg 0 _ _ _ _ t => N.eqb t CHAT_REFRESH_TAG | _ => false end.
+(* storePendingMessage: only one chat-refresh notice is kept for a resume (hasPendingChat is set
+   when one is queued and cleared when the queue is flushed: it is "the queue holds one") *)
+Definition enqueue (q : list smsg) (m : smsg) : list smsg :=
+  if is_chat_refresh m && existsb is_chat_refresh q then q else q ++ [m].
 
 (* ClientSession.SendMessage: per-session filters, then the connection or the pending queue.
    Returns the new hub and the outputs; a bye written to a connection is handled by the caller
@@ -331,7 +338,7 @@ Definition deliver_to_session (h : hub) (sid : N) (m : smsg) : hub * list out :=
       | Some mm =>
           match s1.(s_conn) with
           | Some c => (put_sess h sid s1, [ToConn c mm])
-          | None => (put_sess h sid (sess_pending s1 (s1.(s_pending) ++ [mm])), [])
+          | None => (put_sess h sid (sess_pending s1 (enqueue s1.(s_pending) mm)), [])
           end
       end
   end.
